@@ -67,6 +67,25 @@ pub(crate) fn thread_teardown() {
     crate::world::set_discard_io(false);
 }
 
+/// Is the calling thread a simulated process (with its own stdin/stdout)?
+pub fn in_process() -> bool {
+    IO.with(|c| c.borrow().is_some())
+}
+
+/// `println!` of code that may run inside a simulated process: the line goes
+/// to that process's stdout - the same line-buffered writer its frames go
+/// through, as with the real `std::io::stdout()` - and to the real stdout
+/// otherwise.
+pub fn print_line(args: std::fmt::Arguments<'_>) {
+    if in_process() {
+        let mut o = stdout();
+        let _ = o.write_fmt(args);
+        let _ = o.write_all(b"\n");
+    } else {
+        println!("{}", args);
+    }
+}
+
 pub struct Stdin {
     inner: Arc<Mutex<BufReader<PipeEnd>>>,
 }
@@ -119,8 +138,11 @@ pub struct Stdout {
     inner: Arc<Mutex<LineWriter<PipeEnd>>>,
 }
 
+/// Like std's, the lock on stdout is re-entrant: code that holds it (child.rs
+/// does, for its whole life) may still `println!`. A simulated process has one
+/// thread, so the lock is taken per operation instead of being held.
 pub struct StdoutLock<'a> {
-    g: MutexGuard<'a, LineWriter<PipeEnd>>,
+    s: &'a Stdout,
 }
 
 pub fn stdout() -> Stdout {
@@ -136,27 +158,29 @@ pub fn stdout() -> Stdout {
 
 impl Stdout {
     pub fn lock(&self) -> StdoutLock<'_> {
-        StdoutLock {
-            g: self.inner.lock().unwrap_or_else(|e| e.into_inner()),
-        }
+        StdoutLock { s: self }
+    }
+    fn with<R>(&self, f: impl FnOnce(&mut LineWriter<PipeEnd>) -> R) -> R {
+        let mut g = self.inner.lock().unwrap_or_else(|e| e.into_inner());
+        f(&mut g)
     }
 }
 
 impl Write for StdoutLock<'_> {
     fn write(&mut self, buf: &[u8]) -> io::Result<usize> {
-        self.g.write(buf)
+        self.s.with(|w| w.write(buf))
     }
     fn flush(&mut self) -> io::Result<()> {
-        self.g.flush()
+        self.s.with(|w| w.flush())
     }
 }
 
 impl Write for Stdout {
     fn write(&mut self, buf: &[u8]) -> io::Result<usize> {
-        self.lock().write(buf)
+        self.with(|w| w.write(buf))
     }
     fn flush(&mut self) -> io::Result<()> {
-        self.lock().flush()
+        self.with(|w| w.flush())
     }
 }
 
